@@ -25,6 +25,12 @@ const maxPaths = 2048
 // pathsTo enumerates the simple (acyclic) CFG paths from block `from` (nil: entry) to block `to`
 // and returns, for each, the branch decisions taken. ok is false when the enumeration was cut.
 func pathsTo(fn *ssa.Function, from, to *ssa.BasicBlock) (paths [][]condEdge, ok bool) {
+	paths, _, ok = pathsToO(fn, from, to)
+	return paths, ok
+}
+
+// pathsToO is pathsTo that also returns, for each path, the blocks it visits in order.
+func pathsToO(fn *ssa.Function, from, to *ssa.BasicBlock) (paths [][]condEdge, orders [][]*ssa.BasicBlock, ok bool) {
 	if from == nil {
 		from = fn.Blocks[0]
 	}
@@ -42,7 +48,7 @@ func pathsTo(fn *ssa.Function, from, to *ssa.BasicBlock) (paths [][]condEdge, ok
 		}
 	}
 	if !canReach[from] {
-		return nil, true
+		return nil, nil, true
 	}
 	ok = true
 	onPath := map[*ssa.BasicBlock]bool{}
@@ -61,6 +67,7 @@ func pathsTo(fn *ssa.Function, from, to *ssa.BasicBlock) (paths [][]condEdge, ok
 				return
 			}
 			paths = append(paths, append([]condEdge(nil), cur...))
+			orders = append(orders, append([]*ssa.BasicBlock(nil), order...))
 			return
 		}
 		onPath[b] = true
@@ -92,7 +99,47 @@ func pathsTo(fn *ssa.Function, from, to *ssa.BasicBlock) (paths [][]condEdge, ok
 		}
 	}
 	dfs(from)
-	return paths, ok
+	return paths, orders, ok
+}
+
+// boolReturnLits: the literal paths of a boolean function on which it returns `want` (the returned expression is
+// resolved per path: constant edges of a materialised && / || select or drop the path, anything else becomes the
+// last literal of the path).
+func boolReturnLits(h *ssa.Function, want bool) ([][]Lit, bool) {
+	if h == nil || len(h.Blocks) == 0 || h.Signature.Results().Len() != 1 {
+		return nil, false
+	}
+	if b, isB := h.Signature.Results().At(0).Type().Underlying().(*types.Basic); !isB || b.Kind() != types.Bool {
+		return nil, false
+	}
+	var out [][]Lit
+	okAll := true
+	for _, b := range h.Blocks {
+		if len(b.Instrs) == 0 {
+			continue
+		}
+		ret, isRet := b.Instrs[len(b.Instrs)-1].(*ssa.Return)
+		if !isRet || len(ret.Results) != 1 {
+			continue
+		}
+		paths, orders, ok := pathsToO(h, nil, b)
+		okAll = okAll && ok
+		for i, p := range paths {
+			var lits []Lit
+			for _, e := range p {
+				lits = append(lits, normLit(e))
+			}
+			v, known := resolveCondOnPath(ret.Results[0], orders[i])
+			if known >= 0 {
+				if (known == 1) == want {
+					out = append(out, lits)
+				}
+				continue
+			}
+			out = append(out, append(lits, normLit(condEdge{v, want})))
+		}
+	}
+	return out, okAll
 }
 
 // resolveCondOnPath looks through a boolean phi (the value form of a && b, a || b, e.g. the case
